@@ -319,6 +319,28 @@ def c11_scripts(rng, tier, model_prefixes):
             for o in common:
                 o.pop("empty_masked", None)
             S.append((build if rng.random() < 0.5 else build2)(n, nch, mask, common))
+    # every channel masked out, for many calls: the counts and getters must follow the unmasked run
+    for rep in range({"quick": 40, "thorough": 200}[tier]):
+        # the types whose counts vary from call to call get most of the budget
+        for kind in (gen.KINDS if rep % 5 == 0 else ["FastFixedOut", "SincFixedOut", "FftFixedOut", "FftFixedIn"]):
+            h = gen.valid_history(rng, kind, rng.randrange(30, 70), small=rng.random() < 0.3,
+                                  allow=("ratio", "ramp", "chunk") if rng.random() < 0.5 else ())
+            n = calm(h[0])
+            n["signal"] = "noise"
+            n.pop("probe", None)
+            nch = rng.randrange(1, 4)
+            A = dict(n); A["ch"] = nch
+            ops = [with_id(A, 0), with_id(A, 1), {"op": "note", "twin": "ctl", "a": 0, "b": 1}]
+            for o in h[1:]:
+                o = {k: v for k, v in o.items() if k not in ("mask", "empty_masked")}
+                om = dict(o)
+                if o["op"] == "process":
+                    om["mask"] = [False] * nch
+                    om["via"] = "into"
+                    if rng.random() < 0.5:
+                        om["empty_masked"] = True
+                ops += [with_id(om, 0), with_id(o, 1)]
+            S.append(ops)
     # all 2^n masks for n <= 3 on a few model-generated histories
     for ops0 in model_prefixes[: {"quick": 40, "thorough": 400}[tier]]:
         n = dict(ops0[0])
@@ -463,7 +485,14 @@ def c05_scripts(rng, tier):
         for i, n in enumerate(insts):
             per = (max(1, n["chunk"] * rb // ra) if n["kind"] != "FftFixedOut" else n["chunk"])
             for _ in range(min(400, total // per + 2)):
-                ops.append({"op": "process", "id": i})
+                o = {"op": "process", "id": i}
+                # the stream must not depend on how long the caller's output buffer is
+                u = rng.random()
+                if u < 0.25:
+                    o["out"] = "max"
+                elif u < 0.4:
+                    o["out_extra"] = rng.randrange(1, 2000)
+                ops.append(o)
         S.append(ops)
     # ---- async: constant ratio, different chunkings / variants: same evaluation instants
     for _ in range(n_gen):
@@ -491,8 +520,15 @@ def c05_scripts(rng, tier):
             calls = int(min(600, want_out / per_out + (base.get("L", 8) * 3) / max(1, n["chunk"]) + 4))
             for c in range(calls):
                 if fam == "Sinc" and rng.random() < 0.15:
-                    ops.append({"op": "set_chunk", "id": i, "n": rng.randrange(1, n["chunk"] + 1)})
-                ops.append({"op": "process", "id": i})
+                    for _r in range(rng.choice([1, 1, 2, 3])):      # also several requests in a row
+                        ops.append({"op": "set_chunk", "id": i, "n": rng.randrange(1, n["chunk"] + 1)})
+                o = {"op": "process", "id": i}
+                u = rng.random()
+                if u < 0.2:
+                    o["out"] = "max"
+                elif u < 0.3:
+                    o["out_extra"] = rng.randrange(1, 300)
+                ops.append(o)
         S.append(ops)
     return S
 
